@@ -286,14 +286,16 @@ def drive_rounding(rec, count):
         for j in range(m):
             ar, ai, br, bi = (Fraction(float(x)) for x in (a[j, 0], a[j, 1], b[j, 0], b[j, 1]))
             re, im = ar * br - ai * bi, ar * bi + ai * br
-            scale = abs(ar * br) + abs(ai * bi) + abs(ar * bi) + abs(ai * br)
+            # a few units of rounding relative to the magnitude of the terms of EACH component (cancellation between the terms of a
+            # component cannot be resolved better; the terms of the other component have no business in it)
+            sre, sim = abs(ar * br) + abs(ai * bi), abs(ar * bi) + abs(ai * br)
             if kern[2] == "addmul":
                 re += Fraction(float(r0[j, 0]))
                 im += Fraction(float(r0[j, 1]))
-                scale += abs(Fraction(float(r0[j, 0]))) + abs(Fraction(float(r0[j, 1])))
-            # a few units of rounding relative to the magnitude of the terms (cancellation cannot be resolved better)
-            tol = 4 * scale * Fraction(1, 2 ** 52)
-            if abs(Fraction(float(got[j, 0])) - re) > tol or abs(Fraction(float(got[j, 1])) - im) > tol:
+                sre += abs(Fraction(float(r0[j, 0])))
+                sim += abs(Fraction(float(r0[j, 1])))
+            u4 = 4 * Fraction(1, 2 ** 52)
+            if abs(Fraction(float(got[j, 0])) - re) > u4 * sre or abs(Fraction(float(got[j, 1])) - im) > u4 * sim:
                 rec.violation(label + ": element %d further than a few units of rounding from the exact complex product" % j,
                               {"kernel": kern[0], "m": m, "a": a[j].tolist(), "b": b[j].tolist(), "r0": r0[j].tolist(), "got": got[j].tolist()})
                 break
